@@ -52,6 +52,170 @@ partial def hasRecords : Ty → Bool
   | _ => false
 end
 
+
+/-! ### `lens`: positions of every length / count field of a well-formed frame (for the C20 generator) -/
+
+/-- one length or count field: offset in the frame, kind (`i32`, `i16`, `uv` unsigned varint, `zv` zig-zag
+varint), width in bytes, offsets of the enclosing int32 size fields (to keep them consistent when the width
+changes) and, when the field is covered by a checksum, `(kind, offset of the crc field, region start, region end)` -/
+structure LF where
+  off : Nat
+  kind : String
+  width : Nat
+  encl : List Nat
+  crc : Option (String × Nat × Nat × Nat) := none
+
+def LF.show (f : LF) : String :=
+  let e := if f.encl.isEmpty then "-" else "+".intercalate (f.encl.map toString)
+  let c := match f.crc with
+    | some (k, o, a, b) => s!"{k}/{o}/{a}/{b}"
+    | none => "-"
+  s!"{f.off}:{f.kind}:{f.width}:{e}:{c}"
+
+def zvRead (bs : Bytes) : Option (Int × Nat) :=
+  match Spec.pUvar bs with
+  | some (u, r) => some ((if u % 2 == 0 then (u / 2 : Int) else -((u / 2 : Int)) - 1), bs.length - r.length)
+  | none => none
+
+/-- v2 record fields inside `[off, end_)` -/
+partial def walkRecordsV2 (all : Bytes) (encl : List Nat) (crc : Option (String × Nat × Nat × Nat)) (n : Nat) (off end_ : Nat) : List LF :=
+  if n == 0 || off ≥ end_ then [] else
+  let zv (o : Nat) := zvRead (all.drop o)
+  match zv off with
+  | none => []
+  | some (_, w0) =>
+    let f0 : LF := ⟨off, "zv", w0, encl, crc⟩
+    let o1 := off + w0 + 1
+    match zv o1 with
+    | none => [f0]
+    | some (_, w1) => match zv (o1 + w1) with
+      | none => [f0]
+      | some (_, w2) =>
+        let ok := o1 + w1 + w2
+        match zv ok with
+        | none => [f0]
+        | some (kl, wk) =>
+          let fk : LF := ⟨ok, "zv", wk, encl, crc⟩
+          let ov := ok + wk + (if kl > 0 then kl.toNat else 0)
+          match zv ov with
+          | none => [f0, fk]
+          | some (vl, wv) =>
+            let fv : LF := ⟨ov, "zv", wv, encl, crc⟩
+            let oh := ov + wv + (if vl > 0 then vl.toNat else 0)
+            match zv oh with
+            | none => [f0, fk, fv]
+            | some (nh, wh) =>
+              let fh : LF := ⟨oh, "zv", wh, encl, crc⟩
+              let rec hdrs (k : Nat) (o : Nat) (acc : List LF) : List LF × Nat :=
+                if k == 0 then (acc, o) else
+                match zv o with
+                | none => (acc, o)
+                | some (l1, a) =>
+                  let o2 := o + a + (if l1 > 0 then l1.toNat else 0)
+                  match zv o2 with
+                  | none => (acc ++ [⟨o, "zv", a, encl, crc⟩], o2)
+                  | some (l2, b) =>
+                    hdrs (k - 1) (o2 + b + (if l2 > 0 then l2.toNat else 0)) (acc ++ [⟨o, "zv", a, encl, crc⟩, ⟨o2, "zv", b, encl, crc⟩])
+              let (hs, onext) := hdrs (if nh > 0 then nh.toNat else 0) (oh + wh) []
+              [f0, fk, fv, fh] ++ hs ++ walkRecordsV2 all encl crc (n - 1) onext end_
+
+def i32AtOff (all : Bytes) (o : Nat) : Int := match Spec.pInt 4 (all.drop o) with | some (v, _) => v | none => 0
+
+/-- the length fields inside a record-set payload occupying `[off, end_)` of the frame -/
+partial def walkRecordSet (all : Bytes) (encl : List Nat) (off end_ : Nat) : List LF :=
+  if off + 17 > end_ then [] else
+  let magic := (all.getD (off + 16) 0).toNat
+  let size : Int := i32AtOff all (off + 8)
+  if size < 0 then [] else
+  let stop := off + 12 + size.toNat
+  if stop > end_ then [] else
+  let fsize : LF := ⟨off + 8, "i32", 4, encl, none⟩
+  let encl' := encl ++ [off + 8]
+  if magic == 2 then
+    let crc := some ("c", off + 17, off + 21, stop)
+    let attrs := (all.getD (off + 22) 0).toNat
+    let fnum : LF := ⟨off + 57, "i32", 4, encl', crc⟩
+    let n : Int := i32AtOff all (off + 57)
+    let recs := if attrs % 8 == 0 && n.toNat != 0 then walkRecordsV2 all encl' crc n.toNat (off + 61) stop else []
+    [fsize, fnum] ++ recs ++ walkRecordSet all encl stop end_
+  else
+    let crc := some ("i", off + 12, off + 16, stop)
+    let ok := off + 18 + (if magic == 1 then 8 else 0)
+    let kl : Int := i32AtOff all ok
+    let ov := ok + 4 + (if kl > 0 then kl.toNat else 0)
+    let fk : LF := ⟨ok, "i32", 4, encl', crc⟩
+    let fv : LF := ⟨ov, "i32", 4, encl', crc⟩
+    (if ov + 4 ≤ stop then [fsize, fk, fv] else [fsize, fk]) ++ walkRecordSet all encl stop end_
+
+mutual
+/-- walk a value of type `t` starting at `off`; returns the fields and the offset after the value -/
+partial def walkTy (all : Bytes) : Ty → Nat → Option (List LF × Nat)
+  | .bool, o | .int8, o => some ([], o + 1)
+  | .int16, o => some ([], o + 2)
+  | .int32, o => some ([], o + 4)
+  | .int64, o | .float64, o => some ([], o + 8)
+  | .string c _, o =>
+    if c then match Spec.pUvar (all.drop o) with
+      | some (n, r) => let w := (all.drop o).length - r.length
+        some ([⟨o, "uv", w, [0], none⟩], o + w + (n - 1))
+      | none => none
+    else match Spec.pInt 2 (all.drop o) with
+      | some (n, _) => some ([⟨o, "i16", 2, [0], none⟩], o + 2 + (if n > 0 then n.toNat else 0))
+      | none => none
+  | .bytes c _, o =>
+    if c then match Spec.pUvar (all.drop o) with
+      | some (n, r) => let w := (all.drop o).length - r.length
+        some ([⟨o, "uv", w, [0], none⟩], o + w + (n - 1))
+      | none => none
+    else match Spec.pInt 4 (all.drop o) with
+      | some (n, _) => some ([⟨o, "i32", 4, [0], none⟩], o + 4 + (if n > 0 then n.toNat else 0))
+      | none => none
+  | .array c _ t, o =>
+    if c then match Spec.pUvar (all.drop o) with
+      | some (n, r) => let w := (all.drop o).length - r.length
+        (walkElems all t (n - 1) (o + w)).map fun (fs, o') => (⟨o, "uv", w, [0], none⟩ :: fs, o')
+      | none => none
+    else match Spec.pInt 4 (all.drop o) with
+      | some (n, _) => (walkElems all t (if n > 0 then n.toNat else 0) (o + 4)).map fun (fs, o') => (⟨o, "i32", 4, [0], none⟩ :: fs, o')
+      | none => none
+  | .struct flex fs _ _, o =>
+    match walkFields all fs o with
+    | none => none
+    | some (lfs, o') =>
+      if flex then match Spec.pUvar (all.drop o') with
+        | some (_, r) => let w := (all.drop o').length - r.length
+          some (lfs ++ [⟨o', "uv", w, [0], none⟩], o' + w)
+        | none => none
+      else some (lfs, o')
+  | .unit _, o => some ([], o)
+  | .records, o =>
+    match Spec.pInt 4 (all.drop o) with
+    | some (n, _) =>
+      let len := if n > 0 then n.toNat else 0
+      some (⟨o, "i32", 4, [0], none⟩ :: walkRecordSet all [0, o] (o + 4) (o + 4 + len), o + 4 + len)
+    | none => none
+partial def walkElems (all : Bytes) (t : Ty) : Nat → Nat → Option (List LF × Nat)
+  | 0, o => some ([], o)
+  | n + 1, o => match walkTy all t o with
+    | some (fs, o') => (walkElems all t n o').map fun (gs, o'') => (fs ++ gs, o'')
+    | none => none
+partial def walkFields (all : Bytes) : List Ty → Nat → Option (List LF × Nat)
+  | [], o => some ([], o)
+  | t :: ts, o =>
+    if t.zeroSize then walkFields all ts o else
+    match walkTy all t o with
+    | some (fs, o') => (walkFields all ts o').map fun (gs, o'') => (fs ++ gs, o'')
+    | none => none
+end
+
+/-- the Conn codec writes an empty (non-null) string where the reflection codec writes null for `""`: both are
+canonical encodings (of the empty resp. the null string) — strings made non-nullable for the second comparison -/
+partial def denullStr : Ty → Ty
+  | .string c _ => .string c false
+  | .array c n t => .array c n (denullStr t)
+  | .struct f fs ids ts => .struct f (fs.map denullStr) ids (ts.map denullStr)
+  | t => t
+
 structure Case where
   m : RawMsg
   r : Resolved
@@ -145,6 +309,51 @@ def step (line : String) : String :=
                   | some (corr, v) => s!"{corr} {(embed c.m.structs c.ver root v).text}"
                   | none => "err"
                 answer model (impl == ref)
+          | _ => "bad-args"
+        else if op == "connreq" then
+          -- a request captured from a real Conn method by the strictly framing fake broker
+          match rest with
+          | cid :: pattern =>
+            match ofHex cid, ofHex impl with
+            | some cidB, some raw =>
+              let (rt, _) := refTy c
+              match Spec.parseRequest c.r.flexible rt raw with
+              | none => answer "unparsable-under-the-announced-size" false
+              | some (corr, cid', v) =>
+                -- canonical + exact framing: re-encoding what was parsed must give back every captured byte
+                let reenc1 := Spec.frameRequest c.r.flexible c.m.apiKey c.ver corr cid' (Spec.encode rt v)
+                let reenc2 := Spec.frameRequest c.r.flexible c.m.apiKey c.ver corr cid' (Spec.encode (denullStr rt) v)
+                let reenc := if reenc1 == raw then reenc1 else reenc2
+                let toks := (embed c.m.structs c.ver root v).toTokens
+                let okPat := toks.length == pattern.length &&
+                  (toks.zip pattern).all fun (a, b) => b == "*" || a == b
+                answer (toHex reenc) (reenc == raw && okPat && cid' == cidB)
+            | _, _ => "bad-hex"
+          | _ => "bad-args"
+        else if op == "lens" then
+          match rest with
+          | [hex] =>
+            match ofHex hex with
+            | none => "bad-hex"
+            | some bs =>
+              -- response frame: size(4) corr(4) [flexible: header tag buffer] body
+              let start := 8
+              let hdr : Option (List LF × Nat) :=
+                if c.m.isRequest then none
+                else if c.r.flexible then
+                  match Spec.pUvar (bs.drop start) with
+                  | some (_, r) => let w := (bs.drop start).length - r.length
+                    some ([⟨start, "uv", w, [0], none⟩], start + w)
+                  | none => none
+                else some ([], start)
+              match hdr with
+              | none => answer "-" true
+              | some (hf, o) =>
+                match walkTy bs c.r.ty o with
+                | some (fs, _) =>
+                  let all : List LF := ⟨0, "i32", 4, [], none⟩ :: (hf ++ fs)
+                  answer (",".intercalate (all.map LF.show)) true
+                | none => answer "-" true
           | _ => "bad-args"
         else if op == "mal" then
           match rest with
